@@ -50,6 +50,7 @@ param_value_pattern = re.compile(br'\=([\x21-\x3C\x3E-\x7F]+)')
 
 def find_outside_quotes(haystack, needle, start_i=0, quotes=b'"'):
     quoted = None
+    escaped = False
     h_len = len(haystack)
     n_len = len(needle)
     for i in range(start_i, h_len-n_len+1):
@@ -60,6 +61,11 @@ def find_outside_quotes(haystack, needle, start_i=0, quotes=b'"'):
                 if haystack[i] == quote:
                     quoted = quote
                     break
+        elif escaped:
+            # second byte of a quoted-pair (RFC 5321 4.1.2): never a delimiter
+            escaped = False
+        elif haystack[i:i+1] == b'\\':
+            escaped = True
         elif haystack[i] == quoted:
             quoted = None
     return -1
